@@ -85,6 +85,7 @@ struct vs_world {
   /* fault schedule */
   int fault_budget, fault_mask, nfaults;
   int hard_errno;             /* errno delivered by VS_F_HARD                         */
+  int close_eintr_budget, nclose_eintr;   /* close() may report -1/EINTR AFTER releasing the descriptor (Linux); set after vs_begin_call */
   int sysfail_budget, nsysfail;     /* failures of non-transfer syscalls (C18/C20)    */
   /* pending environment action */
   int env_mask;               /* CONCRETE set of kinds (1 << kind) the harness may choose from: keeps unused kinds out of the formula */
